@@ -246,6 +246,9 @@ func genSwapIn(g *G) *Op {
 	i := g.Pick("in", 2)
 	in, out := p.PoolAssets[i].Token, p.PoolAssets[1-i].Token
 	amt := g.Amount("swapin", in.Amount)
+	if bal := g.S.BalOf(u.Addr.String(), in.Denom); g.W.Scenario.ModestUser && u == g.W.Accounts[len(g.W.Accounts)-1] && amt.GT(bal) && bal.GT(sdkmath.NewInt(10)) {
+		amt = bal.QuoRaw(int64(g.Int("modestpart", 2, 10))) // a user of modest means trades what it has
+	}
 	minOut := sdkmath.OneInt()
 	if g.Int("minout", 0, 5) == 0 {
 		minOut = g.Amount("minoutamt", out.Amount)
